@@ -6,6 +6,7 @@ open Exa Exa.Api Exa.Rib
 
 structure ApiSt where
   max : Nat := 1048576
+  strict : Bool := false
   reader : Reader := {}
   q : Quirks := Quirks.code
   nbrs : List Nbr := []
@@ -70,8 +71,8 @@ def apiLine (d : ApiSt) (ws : List String) : ApiSt × String :=
   match ws with
   | ["init", v, a, q, m, svc] =>
     match v.toNat?, bool? a, q.toList.map (fun c => c == '1'), m.toNat?, hexWord? svc with
-    | some v, some a, [q1, q2, q3], some m, some svc =>
-      ({ max := m, q := { wildcardShort := q1, v6Fallback := q2, watchdogAll := q3 }, service := svc,
+    | some v, some a, [q1, q2, q3, q4], some m, some svc =>
+      ({ max := m, strict := q4, q := { wildcardShort := q1, v6Fallback := q2, watchdogAll := q3 }, service := svc,
          st := { version := v, ack := a } }, "ok")
     | _, _, _, _, _ => bad
   | ["nbr", pa, li, la, pas, rid, fa, fams, att, enh] =>
@@ -98,7 +99,7 @@ def apiLine (d : ApiSt) (ws : List String) : ApiSt × String :=
   | ["feed", chunk] =>
     match hexBytes? chunk with
     | some c =>
-      let r := feed d.max d.reader c
+      let r := feed d.strict d.max d.reader c
       let fresh := r.queue.drop d.reader.queue.length
       ({ d with reader := r },
         (if r.dead then "dead" else "ok") ++ s!" {fresh.length}" ++ String.join (fresh.map (fun c => " " ++ showWord c)))
